@@ -19,6 +19,7 @@ def excCls? : Sexp → Option ExcCls
   | .atom "KeyError" => some .keyError | .atom "AssertionError" => some .assertionError
   | .atom "KeyboardInterrupt" => some .keyboardInterrupt | .atom "SystemExit" => some .systemExit
   | .atom "NotImplementedError" => some .notImplementedError
+  | .atom "Unstable" => some .unstable
   | .atom "OracleMiss" => some .oracleMiss | .atom "Any" => some .anyCls
   | _ => none
 def ofExcCls : ExcCls → Sexp
@@ -28,6 +29,7 @@ def ofExcCls : ExcCls → Sexp
   | .keyError => .atom "KeyError" | .assertionError => .atom "AssertionError"
   | .keyboardInterrupt => .atom "KeyboardInterrupt" | .systemExit => .atom "SystemExit"
   | .notImplementedError => .atom "NotImplementedError"
+  | .unstable => .atom "Unstable"
   | .oracleMiss => .atom "OracleMiss" | .anyCls => .atom "Any"
 
 def exc? (c a : Sexp) : Option Exc := do some ⟨← excCls? c, ← int? a⟩
